@@ -139,6 +139,16 @@ def reindexAxis (h : H) (r : Ref) (d : Nat) (labels : List Int) : Option (H × R
     reorderAxis h r d (labels.map fun l => labs.idxOf l)
   | _ => none
 
+/-- `ds = Dataset(); ds['v'] = a; ds['v']` (dataset.py `__setitem__`: `copy.copy(val)` then `val._axes = copy.deepcopy(val.axes)`;
+`__getitem__` = dict lookup): a NEW array object holding THE SAME values object and THE SAME metadata dict as `a`; its Axis
+objects are the Dataset's own (deep copies of a's) -/
+def dsVar (h : H) (r : Ref) : Option (H × Ref) :=
+  match h[r]? with
+  | some (.arr vals view shape axes attrs) =>
+    let (h1, naxes) := mapAlloc deepAxis h axes
+    some (alloc h1 (.arr vals view shape naxes attrs))
+  | _ => none
+
 /-! ### histories over the extended operation set -/
 
 inductive XOp
@@ -151,6 +161,7 @@ inductive XOp
   | reduceSum (k d : Nat)
   | addArr (k j : Nat)
   | reindexAxis (k d : Nat) (labels : List Int)
+  | dsVar (k : Nat)
   deriving Repr, Inhabited
 
 def xisMut : XOp → Bool
@@ -167,6 +178,7 @@ def xapply (h : H) (env : List Ref) : XOp → Option (H × Ref)
   | .reduceSum k d => (env[k]?).bind (reduceSum h · d)
   | .addArr k j => (env[k]?).bind fun r1 => (env[j]?).bind fun r2 => addArr h r1 r2
   | .reindexAxis k d labels => (env[k]?).bind (reindexAxis h · d labels)
+  | .dsVar k => (env[k]?).bind (dsVar h)
 
 def xstep (s : St) (x : XOp) : St :=
   match x with
